@@ -8,7 +8,8 @@
   whose `RunnerScope` is active on the thread, `BasicExecutor::current()`).
 
     `resume_in_executor(e, h)`: `e->invoke([h]{h.resume();})` - the frame later runs in context `e`
-        (an inplace executor runs it at once, still under its own RunnerScope).
+        (an inplace executor runs it at once, still under its own RunnerScope); when `invoke` returns
+        a code != 0 the closure was not taken and the frame is resumed in place (`reject`).
     `co_await task` (Transformer + Task::await_suspend): an unbound task inherits the awaiter's
         executor; `set_awaiter(awaiter, awaiter's executor)` happens BEFORE the task is started, so
         `final_suspend` always sees it; the task starts inline iff it is unbound or already runs in
@@ -66,6 +67,7 @@ structure State where
   suspends : Nat → Nat := fun _ => 0
   bad : Bool := false
   wrongCtx : Bool := false          -- a bound frame ran in a foreign context
+  fb : Nat → Bool := fun _ => false -- ghost: the frame runs in place because its executor rejected the resumption
 
 def upd {α : Type} (f : Nat → α) (i : Nat) (v : α) : Nat → α := fun j => if j = i then v else f j
 
@@ -74,7 +76,7 @@ def State.enter (s : State) (h : Nat) (c : Option Nat) : State :=
   let w := match s.fex h with
     | some e => c ≠ some e
     | none => false
-  { s with fr := upd s.fr h (.running c), wrongCtx := s.wrongCtx || w }
+  { s with fr := upd s.fr h (.running c), wrongCtx := s.wrongCtx || w, fb := upd s.fb h false }
 
 /-- `resume_in_executor(s.fex h, h)` on a suspended frame -/
 def State.resumeVia (s : State) (h : Nat) : State :=
@@ -87,6 +89,15 @@ def State.resumeInline (s : State) (h : Nat) (c : Option Nat) : State :=
   if s.fr h = .suspended then
     ({ s with resumes := upd s.resumes h (s.resumes h + 1) }).enter h c
   else { s with bad := true, resumes := upd s.resumes h (s.resumes h + 1) }
+
+/-- `resume_in_executor` when `executor->invoke(...)` returns a code != 0 (the executor neither moved nor
+called the closure): `handle.resume()` in place, in the context `c` of the calling thread.  The
+executor's answer is a fault input of the model: every pending resumption is either run by the
+executor (`run`) or rejected (`reject`) - in both cases the frame runs. -/
+def reject (s : State) (h : Nat) (c : Option Nat) : Option State :=
+  match s.fr h with
+  | .resuming _ => some { s with fr := upd s.fr h (.running c), fb := upd s.fb h true }
+  | _ => none
 
 /-- `executor.submit(task)`: bind and start through the executor -/
 def submit (s : State) (h e : Nat) : Option State :=
@@ -174,6 +185,7 @@ inductive Step : State → State → Prop
   | registerCb (s : State) (a : Nat) (s' : State) : registerCb s a = some s' → Step s s'
   | setFuture (s : State) (q v : Nat) (s' : State) : setFuture s q v = some s' → Step s s'
   | runCb (s : State) (q : Nat) (s' : State) : runCb s q = some s' → Step s s'
+  | reject (s : State) (h : Nat) (c : Option Nat) (s' : State) : reject s h c = some s' → Step s s'
 
 def State.init : State := {}
 
@@ -191,6 +203,8 @@ def Stmts.task_await_suspend : List String := [
 def Stmts.task_await_suspend_p : List String := ["returnawait_suspend(awaiter,awaiter.promise().executor())"]
 def Stmts.future_await_ready : List String := ["return_future.ready()"]
 def Stmts.future_await_suspend : List String := ["_future.on_finish([handle]{handle.promise().resume(handle);})"]
+def Stmts.resume_in_executor : List String := [
+  "autoret=executor->invoke([handle]{handle.resume();})", "if((__builtin_expect(false||(ret!=0),false)))", "handle.resume()"]
 def Stmts.set_awaiter : List String := ["_awaiter=awaiter", "_awaiter_executor=awaiter_executor"]
 
 -- ---------------------------------------------------------------------------------------------
@@ -199,6 +213,9 @@ def Stmts.set_awaiter : List String := ["_awaiter=awaiter", "_awaiter_executor=a
 structure RState where
   s : State := {}
   kind : List (Nat × Nat) := []
+  rej : List Nat := []              -- OS threads on which an executor has just rejected a resumption
+  pset : List (Nat × Nat × Nat) := []     -- OS thread ↦ (future, value) of the `set_value` it is inside
+  pawait : List (Nat × Nat × Nat) := []   -- OS thread ↦ (frame, future) of the `co_await future` it evaluates
 
 def RState.init : RState := {}
 
@@ -206,16 +223,16 @@ def nameNum (pre : String) (s : String) : Option Nat :=
   if s.startsWith pre then (s.drop pre.length).toNat? else none
 def lookup (l : List (Nat × Nat)) (k : Nat) : Option Nat := (l.find? (·.1 == k)).map (·.2)
 
+/-- context of a thread in the trace: `e<k>` = inside executor k, `e-1` = no executor -/
+def parseCtx (s : String) : Option (Option Nat) :=
+  if s == "e-1" then some none else (nameNum "e" s).map some
+
 /-- executor index of the trace (`e0`, `e1`, … ; `x-1` = none) -/
 def parseX (s : String) : Option (Option Nat) :=
   if s == "x-1" then some none else (nameNum "x" s).map some
 
-/-- pending registrations of frames whose `on_finish` has certainly run (the frame's OS thread went
-on): the registration is not visible in the trace, so it is fired lazily -/
-def fireReg (s : State) (a : Nat) : State :=
-  match registerCb s a with
-  | some s' => s'
-  | none => s
+/-- `SEALED_HEAD_VALUE` of the future's callback head as the trace prints it -/
+def sealed : String := "18446744073709551615"
 
 /-- `set_value` runs all callbacks before it returns -/
 def drainCb (s : State) (q : Nat) : Nat → State
@@ -246,27 +263,33 @@ def stepObs (r : RState) (o : Obs) : Except String RState :=
   | "ev", ["await", i, what] =>
     match i.toNat? with
     | some i =>
-      let res := if what == "task" then awaitTask r.s (2 * i) (2 * i + 1) else awaitFuture r.s (2 * i) i
-      match res with
-      | some s' => .ok { r with s := s' }
-      | none => .error s!"await by awaiter {i} is not possible in the model ({reprStr (r.s.fr (2 * i))})"
+      if what == "task" then
+        match awaitTask r.s (2 * i) (2 * i + 1) with
+        | some s' => .ok { r with s := s' }
+        | none => .error s!"await by awaiter {i} is not possible in the model ({reprStr (r.s.fr (2 * i))})"
+      else
+        -- `await_ready` / `on_finish` are linearized at their accesses to the future's callback head
+        .ok { r with pawait := (o.tid, 2 * i, i) :: r.pawait.filter (·.1 ≠ o.tid) }
     | none => .error "bad await"
   | "ev", ["iawait", i, _] =>
     match i.toNat? with
-    | some i =>
-      match awaitFuture r.s (2 * i + 1) i with
-      | some s' => .ok { r with s := s' }
-      | none => .error s!"await by inner task {i} is not possible in the model ({reprStr (r.s.fr (2 * i + 1))})"
+    | some i => .ok { r with pawait := (o.tid, 2 * i + 1, i) :: r.pawait.filter (·.1 ≠ o.tid) }
     | none => .error "bad iawait"
   | "ev", ["istart", i, e] =>
-    match i.toNat?, nameNum "e" e with
+    match i.toNat?, parseCtx e with
     | some i, some e =>
       let b := 2 * i + 1
       match r.s.fr b with
-      | .running c => if c = some e then .ok r else .error s!"inner task {i} starts inline in context {e}, model {reprStr c}"
+      | .running c => if c = e then .ok r else .error s!"inner task {i} starts inline in context {reprStr e}, model {reprStr c}"
       | .resuming via =>
+        if r.rej.contains o.tid then
+          -- the executor refused the closure that starts the task: started in place by the calling thread
+          match reject r.s b e with
+          | some s' => .ok { r with s := s', rej := r.rej.erase o.tid }
+          | none => .error "cannot reject"
+        else
         match run r.s b with
-        | some s' => if via = some e then .ok { r with s := s' } else .error s!"inner task {i} starts in context {e}, model {reprStr via}"
+        | some s' => if via = e then .ok { r with s := s' } else .error s!"inner task {i} starts in context {reprStr e}, model {reprStr via}"
         | none => .error "cannot run"
       | st => .error s!"inner task {i} starts but the model has it {reprStr st}"
     | _, _ => .error "bad istart"
@@ -281,34 +304,78 @@ def stepObs (r : RState) (o : Obs) : Except String RState :=
     | none => .error "bad ifinish"
   | "ev", ["call", "fset", q, v] =>
     match q.toNat?, v.toNat? with
-    | some q, some v =>
-      -- registrations that are still pending in the model have happened or will see the sealed future
-      match setFuture r.s q v with
-      | some s' => .ok { r with s := drainCb s' q 16 }
-      | none => .error "future set twice"
+    | some q, some v => .ok { r with pset := (o.tid, q, v) :: r.pset.filter (·.1 ≠ o.tid) }
     | _, _ => .error "bad fset"
+  | "xchg", [l, _, _, new] =>
+    -- `seal()`: the linearization point of `set_value`; the registered callbacks run before it returns
+    match nameNum "qh" l, r.pset.find? (·.1 == o.tid) with
+    | some q, some (_, q', v) =>
+      if q ≠ q' ∨ new ≠ sealed then .error "unexpected exchange on a callback head"
+      else match setFuture r.s q v with
+        | some s' => .ok { r with s := drainCb s' q 16, pset := r.pset.filter (·.1 ≠ o.tid) }
+        | none => .error "future set twice"
+    | _, _ => .error "exchange on a callback head outside set_value"
+  | "ld", [l, _, val] =>
+    match nameNum "qh" l, r.pawait.find? (·.1 == o.tid) with
+    | some q, some (_, a, q') =>
+      if q ≠ q' then .ok r
+      else if r.s.pc a = .idle then
+        -- await_ready
+        match awaitFuture r.s a q with
+        | some s' =>
+          if (r.s.fut q).ready ≠ (val == sealed) then .error s!"await_ready of frame {a} read {val}, model ready = {(r.s.fut q).ready}"
+          else .ok { r with s := s', pawait := if (r.s.fut q).ready then r.pawait.filter (·.1 ≠ o.tid) else r.pawait }
+        | none => .error s!"await by frame {a} is not possible in the model ({reprStr (r.s.fr a)})"
+      else if val == sealed then
+        -- on_finish on a sealed future: the callback runs at once
+        match registerCb r.s a with
+        | some s' => if (r.s.fut q).ready then .ok { r with s := s', pawait := r.pawait.filter (·.1 ≠ o.tid) } else .error "sealed head, model not ready"
+        | none => .error "no registration pending"
+      else .ok r
+    | _, _ => .ok r
+  | "casw", [l, _, _, _, _, ok, obs] =>
+    match nameNum "qh" l, r.pawait.find? (·.1 == o.tid) with
+    | some q, some (_, a, q') =>
+      if q ≠ q' then .error "registration on another future"
+      else if ok == "1" ∨ obs == sealed then
+        match registerCb r.s a with
+        | some s' =>
+          if (r.s.fut q).ready ≠ (ok != "1") then .error s!"on_finish of frame {a}: cas ok={ok}, model ready = {(r.s.fut q).ready}"
+          else .ok { r with s := s', pawait := r.pawait.filter (·.1 ≠ o.tid) }
+        | none => .error "no registration pending"
+      else .ok r
+    | _, _ => .error "cas on a callback head outside on_finish"
   | "ev", [k, i, e, v] =>
     if k == "aresumed" || k == "iresumed" then
-      match i.toNat?, nameNum "e" e, v.toNat? with
+      match i.toNat?, parseCtx e, v.toNat? with
       | some i, some e, some v =>
         let h := if k == "aresumed" then 2 * i else 2 * i + 1
-        let s := fireReg r.s h
+        let s := r.s
         match s.fr h with
         | .running c =>
           -- continued inline (ready future, or symmetric transfer from the finished inner task)
-          if c ≠ some e then .error s!"frame {h} continues inline in context {e}, model {reprStr c}"
+          if c ≠ e then .error s!"frame {h} continues inline in context {reprStr e}, model {reprStr c}"
           else if s.got h ≠ some v then .error s!"frame {h} received {v}, model {reprStr (s.got h)}"
           else .ok { r with s := s }
         | .resuming via =>
+          if r.rej.contains o.tid then
+            -- the executor refused the closure: resumed in place by the calling thread
+            match reject s h e with
+            | some s' =>
+              if s'.got h ≠ some v then .error s!"frame {h} received {v}, model {reprStr (s'.got h)}"
+              else .ok { r with s := s', rej := r.rej.erase o.tid }
+            | none => .error "cannot reject"
+          else
           match run s h with
           | some s' =>
-            if via ≠ some e then .error s!"frame {h} resumed in context {e}, model {reprStr via}"
+            if via ≠ e then .error s!"frame {h} resumed in context {reprStr e}, model {reprStr via}"
             else if s'.got h ≠ some v then .error s!"frame {h} received {v}, model {reprStr (s'.got h)}"
             else .ok { r with s := s' }
           | none => .error "cannot run"
         | st => .error s!"frame {h} continues but the model has it {reprStr st}"
       | _, _, _ => .error "bad resumed"
     else .ok r
+  | "ev", ["xreject", _, _] => .ok { r with rej := o.tid :: r.rej }
   | "ev", ["adone", i] =>
     match i.toNat? with
     | some i =>
